@@ -659,8 +659,59 @@ proof fn lemma_merge_sizes(w0: &World, w1: &World, w3: &World, w: &World, kd0: M
 proof fn lemma_merge_top(kd0: Map<Bytes, KeyDirEntry>, st0: Map<u64, LogStatistics>, w0: &World, sel: Set<u64>, act: u64, keys: Seq<Bytes>, exact: bool,
                          kd: Map<Bytes, KeyDirEntry>, st: Map<u64, LogStatistics>, w: &World, i: int, hi: u64)
     requires merge_state(kd0, st0, w0, sel, act, keys, exact, kd, st, w, i, hi)
-    ensures w.data.contains_key(hi), act < hi, forall |g: u64| w.ever.contains(g) ==> g <= hi, forall |g: u64| sel.contains(g) ==> g <= act,
+    ensures w.data.contains_key(hi), w.hint.contains_key(hi), act < hi, forall |g: u64| w.ever.contains(g) ==> g <= hi, forall |g: u64| sel.contains(g) ==> g <= act,
+            forall |g: u64| #[trigger] w.data.contains_key(g) ==> g <= hi,
 {
     reveal(merge_state);
     assert(out_ok(kd, w, hi));
+}
+
+// ------------------------------ C03 for merge: facts exported from the opaque loop state ------------------------------
+/// after the copied record has been flushed into the current output (whose hint file does not list it yet) start-up would
+/// still rebuild what it would have rebuilt before: the output is read through its hint file
+proof fn lemma_merge_mid_copy(kd0: Map<Bytes, KeyDirEntry>, st0: Map<u64, LogStatistics>, w0: &World, sel: Set<u64>, act: u64, keys: Seq<Bytes>, exact: bool,
+                              kd: Map<Bytes, KeyDirEntry>, st: Map<u64, LogStatistics>, w: &World, i: int, hi: u64, w2: &World, rn: Rec)
+    requires
+        merge_state(kd0, st0, w0, sel, act, keys, exact, kd, st, w, i, hi), world_wf(w), index_ok(kd, w),
+        w2.data.dom() == w.data.dom(), w2.hint == w.hint,
+        forall |g: u64| g != hi && w.data.contains_key(g) ==> #[trigger] w2.data[g] == w.data[g],
+        w.data.contains_key(hi) ==> w2.data[hi].recs == w.data[hi].recs.push(rn) && rn.pos == w.data[hi].size && rn.len > 0,
+    ensures
+        spec_recover(w2) == spec_recover(w), world_extends(w, w2), model(kd, w2) == model(kd, w), index_ok(kd, w2),
+{
+    reveal(merge_state);
+    assert(out_ok(kd, w, hi));
+    assert forall |id: u64| id < ID_BOUND implies #[trigger] file_log(w, id) == file_log(w2, id) by {
+        if w.data.contains_key(id) { assert(w2.data.dom().contains(id)); } else { assert(!w2.data.dom().contains(id)); }
+    }
+    lemma_recover_same_logs(w, w2);
+    lemma_append_extends(w, w2, hi, rn);
+    lemma_index_mono(w, w2, kd);
+}
+proof fn lemma_merge_old_hints(kd0: Map<Bytes, KeyDirEntry>, st0: Map<u64, LogStatistics>, w0: &World, sel: Set<u64>, act: u64, keys: Seq<Bytes>, exact: bool,
+                               kd: Map<Bytes, KeyDirEntry>, st: Map<u64, LogStatistics>, w: &World, i: int, hi: u64)
+    requires merge_state(kd0, st0, w0, sel, act, keys, exact, kd, st, w, i, hi), hints_ok(w0)
+    ensures forall |f: u64| sel.contains(f) && #[trigger] w.hint.contains_key(f) ==> hint_ok(w, f)
+{
+    reveal(merge_state);
+    assert forall |f: u64| sel.contains(f) && #[trigger] w.hint.contains_key(f) implies hint_ok(w, f) by {
+        assert(f <= act);
+        assert(w.hint.contains_key(f) == w0.hint.contains_key(f));
+        assert(hint_ok(w0, f));
+        assert(w0.data.contains_key(f));
+        assert(w.data.contains_key(f) == w0.data.contains_key(f));
+    }
+}
+proof fn lemma_merge_no_sel_keys(kd0: Map<Bytes, KeyDirEntry>, st0: Map<u64, LogStatistics>, w0: &World, sel: Set<u64>, act: u64, keys: Seq<Bytes>, exact: bool,
+                                 kd: Map<Bytes, KeyDirEntry>, st: Map<u64, LogStatistics>, w: &World, hi: u64)
+    requires merge_state(kd0, st0, w0, sel, act, keys, exact, kd, st, w, keys.len() as int, hi), keys.to_set() == kd0.dom()
+    ensures forall |k: Bytes| #[trigger] kd.contains_key(k) ==> !sel.contains(kd[k].fileid)
+{
+    reveal(merge_state);
+    assert forall |k: Bytes| #[trigger] kd.contains_key(k) implies !sel.contains(kd[k].fileid) by {
+        assert(kd0.dom().contains(k));
+        assert(keys.to_set().contains(k));
+        let j = choose |j: int| 0 <= j < keys.len() && keys[j] == k;
+        assert(!sel.contains(kd[keys[j]].fileid));
+    }
 }
